@@ -45,7 +45,7 @@ void explore06(Options const& o, std::vector<Shim*> const& shims, std::vector<Sh
   {
   bool th = o.tier == "thorough";
   std::vector<i64> Sc = th ? S_set(6,4,true,true) : S_set(4,2,true,true);
-  std::vector<i64> Su = th ? S_set(10,8) : S_set(8,4);
+  std::vector<i64> Su = merge_sets(th ? S_set(10,8) : S_set(8,4), S2_set(th ? 3 : 2));
   std::vector<i64> Sn = Su; Sn.push_back(FX_NAN); Sn.push_back(-FX_NAN);
   i64 D = th ? (1ll<<24) : (1ll<<20);
   rec.note("alphabet", "comparisons: (S u {+-NaN, INT64_MIN})^2, |S|=" + std::to_string(Sc.size()) + "; unary: S |S|=" + std::to_string(Su.size()) + " u every raw in [-" + to_s(D) + "," + to_s(D) + "]");
@@ -83,6 +83,21 @@ void explore06(Options const& o, std::vector<Shim*> const& shims, std::vector<Sh
       rec.add_states(X.size(), 2 * X.size(), X.size());
       }
     }
+    // the same object negated / abs'ed / isnan'ed twice in one function with an assignment in between
+    {
+    int c_seq = rec.cls("C06.second_call_on_modified_object_wrong");
+    std::vector<i64> sv { 0, 1, -1, 65536, -65536, 98304, -98305, 1ll << 40, -(1ll << 46) - 3, FX_MAX, FX_LOWEST, FX_NAN, -FX_NAN, 12345678901ll, -5 };
+    LocalViol lv(rec); u64 n = 0;
+    for( int op : { U_NEG, U_ABS, U_ISNAN } ) for( size_t i = 0; i < sv.size(); ++i ) for( size_t j = 0; j < sv.size(); ++j )
+      {
+      i64 a = sv[i], b = sv[j]; if( op != U_ISNAN && (fx_isnan(a) || fx_isnan(b)) ) continue;
+      i64 r1 = 0, r2 = 0; s->fm_seq_un(op, a, b, &r1, &r2); ++n;
+      auto model = [&](i64 x) -> i64 { return op == U_NEG ? -x : op == U_ABS ? (x < 0 ? -x : x) : (fx_isnan(x) ? 1 : 0); };
+      if( r1 != model(a) || r2 != model(b) ) lv.hit(c_seq, ob | (13ull << 48) | (static_cast<u64>(op) << 40) | (i * 64 + j), [=]{ return ex1(s, op == U_NEG ? "-x; x = b; -x" : op == U_ABS ? "abs(x); x = b; abs(x)" : "isnan(x); x = b; isnan(x)", "same object, one function", {{"a",to_s(a)},{"b",to_s(b)}},
+          to_s(op == U_NEG ? -a : op == U_ABS ? (a < 0 ? -a : a) : (fx_isnan(a) ? 1 : 0)) + ", " + to_s(op == U_NEG ? -b : op == U_ABS ? (b < 0 ? -b : b) : (fx_isnan(b) ? 1 : 0)), to_s(r1) + ", " + to_s(r2), "sequn", {to_s(op), to_s(a), to_s(b)}); });
+      }
+    rec.add_states(n, 2 * n, 2 * n);
+    }
     // derived laws, directly on implementation values (no oracle): -(-x) == x, abs(-x) == abs(x)
     {
     int c_law = rec.cls("C06.law_violated");
@@ -109,6 +124,10 @@ void replay06(Options const& o, Shim* s, Recorder& rec)
   DirectViol d{rec};
   if( o.rcase == "cmp" ) { int k = static_cast<int>(parse_i64(o.rin.at(0))); i64 a = parse_i64(o.rin.at(1)), b = parse_i64(o.rin.at(2)); c.cmp(s, k, a, b, s->fm_bin(CMPS[k], a, b), 0, d); }
   else if( o.rcase == "un" ) { int op = static_cast<int>(parse_i64(o.rin.at(0))); i64 x = parse_i64(o.rin.at(1)); c.un(s, op, x, s->fm_un(op, x), 0, d); }
+  else if( o.rcase == "sequn" )
+    { int op = static_cast<int>(parse_i64(o.rin.at(0))); i64 a = parse_i64(o.rin.at(1)), b = parse_i64(o.rin.at(2)); i64 r1 = 0, r2 = 0; s->fm_seq_un(op, a, b, &r1, &r2);
+      auto model = [&](i64 x) -> i64 { return op == U_NEG ? -x : op == U_ABS ? (x < 0 ? -x : x) : (fx_isnan(x) ? 1 : 0); };
+      if( r1 != model(a) || r2 != model(b) ) rec.viol(rec.cls("C06.second_call_on_modified_object_wrong"), 0, [&]{ return ex1(s, "two calls on one object", "", {{"a",to_s(a)},{"b",to_s(b)}}, to_s(model(a)) + ", " + to_s(model(b)), to_s(r1) + ", " + to_s(r2), o.rcase, o.rin); }); }
   else if( o.rcase == "mask" )
     { int op = static_cast<int>(parse_i64(o.rin.at(0))); i64 x = parse_i64(o.rin.at(1)); i64 r = s->fm_un(op, x); u64 got = s->fm_un_cmpmask(op, x), e = expected_cmpmask(s, r);
       if( got != e ) rec.viol(rec.cls("C06.comparison_of_fresh_result_wrong"), 0, [&]{ return ex1(s, "comparisons of a fresh result", "", {{"x",to_s(x)}}, hex(e), hex(got), o.rcase, o.rin); }); }
@@ -147,7 +166,7 @@ void explore15(Options const& o, std::vector<Shim*> const& shims, std::vector<Sh
   {
   bool th = o.tier == "thorough";
   std::vector<i64> S;
-  for( i64 x : (th ? S_set(10,8) : S_set(8,4)) ) if( C15::in_domain(x) ) S.push_back(x);
+  for( i64 x : merge_sets(th ? S_set(10,8) : S_set(8,4), S2_set(th ? 3 : 2)) ) if( C15::in_domain(x) ) S.push_back(x);
   i64 D = th ? (1ll<<26) : (1ll<<20);
   rec.note("alphabet", "S |S|=" + std::to_string(S.size()) + " restricted to |x| < 2^47-1, u every raw in [-" + to_s(D) + "," + to_s(D) + "]");
   C15 c(rec);
